@@ -18,27 +18,7 @@ func main() {
 	seed := flag.Int64("seed", 1, "seed")
 	flag.Parse()
 	r := rand.New(rand.NewSource(*seed))
-	for i := 0; i < *n; i++ {
-		h := int64(r.Intn(36))
-		switch r.Intn(6) {
-		case 0:
-			h = 35
-		case 1:
-			h = []int64{0, 1, 2, 25, 26, 31, 34}[r.Intn(7)]
-		}
-		w := int64(1) << uint(h)
-		var y int64
-		switch r.Intn(6) {
-		case 0:
-			y = 0
-		case 1:
-			y = w - 1
-		case 2:
-			y = w / 2
-		default:
-			y = r.Int63n(w)
-		}
-		x := r.Int63n(w)
+	emit := func(h, x, y int64, forced int) {
 		id := fmt.Sprintf("%d/%d/%d/%d/%d", h, x, y, 10, -3)
 		vs, err := shape.GetPointOnExtendedSpatialId(id, enum.Vertex)
 		if err != nil || len(vs) != 8 {
@@ -50,6 +30,42 @@ func main() {
 			fmt.Fprintln(os.Stderr, "centre query failed for", id, err)
 			os.Exit(3)
 		}
-		fmt.Printf("%s %d %d %016x %016x %016x\n", id, h, y, math.Float64bits(vs[0].Lat()), math.Float64bits(vs[2].Lat()), math.Float64bits(cs[0].Lat()))
+		fmt.Printf("%s %d %d %016x %016x %016x %d\n", id, h, y, math.Float64bits(vs[0].Lat()), math.Float64bits(vs[2].Lat()), math.Float64bits(cs[0].Lat()), forced)
+	}
+	// forced, every run: the edge rows of zoom 35 (first, second, the two rows at the equator, the last two), and the row just north of the
+	// equator at a few other zooms (its south edge is exactly 0)
+	m := int64(1) << 35
+	for _, y := range []int64{0, 1, m/2 - 1, m / 2, m - 2, m - 1} {
+		emit(35, r.Int63n(m), y, 1)
+	}
+	for _, h := range []int64{1, 2, 20, 34} {
+		emit(h, 0, int64(1)<<uint(h-1)-1, 1)
+	}
+	for i := 0; i < *n; i++ {
+		h := int64(r.Intn(36))
+		switch r.Intn(6) {
+		case 0:
+			h = 35
+		case 1:
+			h = []int64{0, 1, 2, 25, 26, 31, 34}[r.Intn(7)]
+		}
+		w := int64(1) << uint(h)
+		var y int64
+		switch r.Intn(8) {
+		case 0:
+			y = 0
+		case 1:
+			y = w - 1
+		case 2:
+			y = w / 2
+		case 3:
+			y = w/2 - 1
+			if y < 0 {
+				y = 0
+			}
+		default:
+			y = r.Int63n(w)
+		}
+		emit(h, r.Int63n(w), y, 0)
 	}
 }
